@@ -56,6 +56,8 @@ EXPECT = {
     "seed-C11-t": ["C11", "C09"], "seed-C14a-t": ["C14"], "seed-C14b-t": ["C14"], "seed-C17a-t": ["C17", "C02"], "seed-C17b-t": ["C17"],
     "seed-C09a-u": ["C09"], "seed-C09b-u": ["C09"], "seed-C10a-u": ["C10"], "seed-C10b-u": ["C10"], "seed-C14a-u": ["C14"], "seed-C14b-u": ["C14"], "seed-C17a-u": ["C17"],
     "seed-C17b-u": ["C17"], "seed-C18a-u": ["C18"], "seed-C18b-u": ["C18"], "seed-C19a-u": ["C19"], "seed-C19b-u": ["C19"],
+    "seed-C02-v": ["C02", "C05"], "seed-C03-v": ["C03"], "seed-C04-v": ["C04"], "seed-C05-v": ["C05"], "seed-C06-v": ["C06"], "seed-C07-v": ["C07"], "seed-C08-v": ["C08", "C04"],
+    "seed-C11-v": ["C11"], "seed-C12-v": ["C12", "C04"], "seed-C13-v": ["C13"], "seed-C15-v": ["C15", "C04"], "seed-C16-v": ["C16"],
     "seed-C07-o": ["C07"], "seed-C08-o": ["C08"], "seed-C10-o": ["C10"], "seed-C11-o": ["C11"], "seed-C13-o": ["C13"], "seed-C16-o": ["C16"], "seed-C19-o": ["C19"],
 }
 
@@ -105,6 +107,16 @@ def run_parallel(args, jobs):
         ok_all = ok_all and d["all_detected"]
         os.remove(out)
     order = {name: k for k, (name, _, _) in enumerate(changes())}
+    if "--merge" in args:
+        # keep the rows of changes that were not re-run now
+        try:
+            old = json.load(open(os.path.join(B.ROOT, "selftest-results.json")))["results"]
+        except Exception:
+            old = []
+        done = {r["change"] for r in results}
+        results += [r for r in old if r["change"] not in done and r["change"] in order]
+        ok_all = all((r.get("not_detected_by_design") or (r.get("checks") and all(c["exit"] == 1 and c["violation_lines"] for c in r["checks"].values())))
+                     for r in results if r.get("applies", True)) and all(r.get("applies", True) for r in results)
     results.sort(key=lambda r: order.get(r["change"], 1 << 30))
     with open(os.path.join(B.ROOT, "selftest-results.json"), "w") as fh:
         json.dump({"results": results, "all_detected": ok_all}, fh, indent=1)
